@@ -309,7 +309,7 @@ class two_dimensional_grid(lattice):
             )
         elif self.l_y == 2:
             self.bonds = tuple(
-                [(0, 0, i) for i in self.l_x]
+                [(0, 0, i) for i in range(self.l_x)]
                 + [(1, i // self.l_x, i % self.l_x) for i in range(self.l_x * self.l_y)]
             )
         else:
